@@ -52,8 +52,8 @@ def leaf(cls, shape, rs, regime, key):
     """A real leaf of class `cls`; shape is used where the class allows it."""
     from flowjax import bijections as bj
     n = int(np.prod(shape)) if shape else 1
-    sc = {"init": 0.0, "perturbed": 0.8, "negscale": 0.8, "wild": 3.0}[regime]
-    var = {"init": 0, "perturbed": 1, "negscale": 2, "wild": 3}[regime]      # qualitatively different options are covered
+    sc = {"init": 0.0, "perturbed": 0.8, "negscale": 0.8, "wild": 3.0, "corner": 0.8}[regime]
+    var = {"init": 0, "perturbed": 1, "negscale": 2, "wild": 3, "corner": 4}[regime]      # qualitatively different options are covered
     # deterministically (one per regime), never left to the seed
     if cls == "Affine":
         b = bj.Affine(jnp.asarray(rs.normal(size=shape)), jnp.asarray(rs.uniform(0.3, 2.5, size=shape)))
@@ -105,12 +105,12 @@ def leaf(cls, shape, rs, regime, key):
         return perturb(b, rs, max(sc, 0.3))
     if cls == "MaskedAutoregressiveWide":        # many coordinates, weights far from initialisation
         b = bj.MaskedAutoregressive(key, transformer=bj.Affine(), dim=shape[0], cond_dim=2, nn_width=shape[0] + 2, nn_depth=1)
-        return perturb(b, rs, [0.5, 2.0, 6.0, 12.0][var])
+        return perturb(b, rs, [0.5, 2.0, 6.0, 12.0, 1.0][var])
     if cls == "BlockAutoregressiveNetwork":
         b = bj.BlockAutoregressiveNetwork(key, dim=shape[0], cond_dim=None, depth=1, block_dim=2)
         return perturb(b, rs, sc * 0.5)
     if cls == "BlockAutoregressiveNetworkDeep":      # square hidden blocks (depth >= 2, block_dim >= 2), depth 0, a condition
-        depth, bd, cd = [(2, 3, None), (3, 2, 2), (0, 1, None), (2, 2, 2)][var]
+        depth, bd, cd = [(2, 3, None), (3, 2, 2), (0, 1, None), (2, 2, 2), (0, 2, 2)][var]      # corner: a single layer AND a condition
         b = bj.BlockAutoregressiveNetwork(key, dim=shape[0], cond_dim=cd, depth=depth, block_dim=bd)
         return perturb(b, rs, max(sc, 0.3) * 0.5)
     if cls == "Reshape":
@@ -225,6 +225,11 @@ def fill(q, rs, key, onto_only=False):
             if pick == 3:
                 return perturb(bj.Planar(key, dim=s[0], cond_dim=cs[0], negative_slope=0.2, width_size=4, depth=1), rs, 0.5)
         return bj.AdditiveCondition(_lin(rs, n, m, s), s, cs)
+    if k in ("tril", "triu"):
+        n = shp()[0]
+        A = rs.normal(size=(n, n)) + np.diag(rs.uniform(0.4, 2.0, size=n))
+        np.fill_diagonal(A, rs.uniform(0.4, 2.0, size=n))
+        return perturb(bj.TriangularAffine(jnp.asarray(rs.normal(size=n)), jnp.asarray(A), lower=(k == "tril")), rs, 0.3)
     if k == "perm":
         s = shp()
         n = int(np.prod(s)) if s else 1
@@ -346,12 +351,14 @@ def specs(tier: str, seed: int, tlc_cases: list | None = None):
             regimes.append("negscale")
         if cls in ("BlockAutoregressiveNetworkDeep", "MaskedAutoregressiveWide"):
             regimes.append("wild")
+        if cls == "BlockAutoregressiveNetworkDeep":
+            regimes.append("corner")
         if cls == "MaskedAutoregressiveWide":
             regimes.append("negscale")
         for reg in regimes:
             for rep_ in range(2 if thorough else 1):
                 out.append({"src": "leaf", "cls": cls, "regime": reg, "seed": rng.randrange(2**30)})
-    progs = [c["prog"] for c in (tlc_cases or []) if c["r"]["valid"] and c["prog"]["k"] not in ("aff", "cadd", "perm", "flip", "ident", "scan")]
+    progs = [c["prog"] for c in (tlc_cases or []) if c["r"]["valid"] and c["prog"]["k"] not in ("aff", "cadd", "perm", "flip", "ident", "scan", "tril", "triu")]
     k = 300 if thorough else 60
     for q in (progs if len(progs) <= k else rng.sample(progs, k)):
         out.append({"src": "prog", "prog": q, "seed": rng.randrange(2**30)})
